@@ -16,7 +16,7 @@ ADDENDA = {
     "C13": " Odd-numbered http / tcpmux groups spell their domain with upper-case letters.",
     "C14": " server_watchdog draws timeouts of 2 / 3 / 5 / 6 s with 0..8 heartbeats before the silence (every phase of the server's checking rhythm). backoff_bound: the delay sequence of the login loop for generated option sets (incl. the production ones) and up to 40 attempts: never above the maximum, never zero after a failure, grown by the factor in between. client_watchdog_backoff also checks run-id continuity (every re-login presents the run id the server last gave). healing faults: refuse, cut, black hole, dark (half-open) relay, reload during the outage, default loginFailExit, 120+ proxies.",
     "C15": " Outcomes also include content with trailing JSON after the response object. call_sites with heartbeatTimeout 2 s (a third of the cases): a session whose every heartbeat is refused by the Ping plugins must be gone within 7 s however often it pings; accepted heartbeats keep it alive for the rest of the script. manager_chains also draws the outcome 'scrub' - an edit that REMOVES something (the metas entry 'role' of a Login / NewProxy, leaving the entry 'keep'): every later plugin and the server must see the content without it. call_sites endings: close, drop, or relogin (the session is replaced by a login with its run id; every proxy of the replaced session is announced as closed).",
-    "C16": " frps_barrage also sends 0..8 generated hostile requests of anonymous users (HTTP-shaped with hostile methods / targets / header names and values such as a bare 'Basic', unterminated heads, smuggled second requests; mangled TLS ClientHellos) to the vhost http / https, tcpmux and bind ports. frps_churn also draws visitor floods, twin re-logins, registrations beyond the limits, quota, and checks that bystander heartbeats keep being answered. frpc_stop_at_login: stop while the login is outstanding. frps_churn also registers udp proxies whose owner answers every user datagram on the work connection with hand-made UDPPacket frames (no / null / empty address, port out of range, zone, content that is not base64 or of the wrong JSON type, other message types) before the proper reply.",
+    "C16": " frps_barrage also sends 0..8 generated hostile requests of anonymous users (HTTP-shaped with hostile methods / targets / header names and values such as a bare 'Basic', unterminated heads, smuggled second requests; mangled TLS ClientHellos) to the vhost http / https, tcpmux and bind ports. frps_churn also draws visitor floods, twin re-logins, registrations beyond the limits, quota, and checks that bystander heartbeats keep being answered. frpc_stop_at_login: stop while the login is outstanding. frps_churn also registers udp proxies whose owner answers every user datagram on the work connection with hand-made UDPPacket frames (no / null / empty address, port out of range, zone, content that is not base64 or of the wrong JSON type, other message types) before the proper reply. frpc_bad_source_address: deterministic probes - the scripted server starts a work connection for a proxy that sends the PROXY-protocol header (its local service listens) naming user addresses that do not resolve; frpc must survive and keep answering on its admin API (it does on the unchanged tree).",
     "C17": " live_first_message also keeps 0..3 peers stalled in the middle of their first frame while an honest login must complete within 3 s, and a peer that pipelines Login + encrypted Ping in one write (3 split variants). udp_content: payloads handed out by the udp packet decoder keep their content while further packets are decoded. nathole_datagram: the encrypted one-frame datagrams of hole punching (nathole.EncodeMessage / DecodeMessageInto): round trip under the same key, every proper prefix of a valid datagram is an error, 0..48 random bytes and correctly keyed envelopes around 0..24-byte plaintexts / hand-made frames with hostile type and length fields never panic. nathole_datagram also compares with the released format: the datagram deciphers (golib crypto, same key, also the empty key) to exactly the control frame, and a reference-enciphered frame is read back.",
     "C18": " env_template: {{ .Envs.X }} with values containing '=', base64, leading / trailing space, empty. concurrent_strict: strict and non-strict loads of 1..120-proxy files running concurrently; the strict ones must still reject an unknown key.",
     "C19": " reload_while_disconnected: the session is cut and logins are refused / dropped, one or two configurations are loaded meanwhile, logins are accepted again: exactly the last loaded set is registered on the new session. health_gating: the first registration of a proxy may be answered 1.5 / 2.6 s late, so the verdict changes while the answer is outstanding. health_flap_backoff: a backend flapping up/down; stop_during_send and stale_visitor_config are deterministic probes. visitor_reload: a real frps, a real owner (stcp, sudp, xtcp proxies with echo backends) and a real frpc holding 0..3 visitors of kinds stcp / sudp / xtcp; 1..3 reloads replace the visitor set while tcp users hold connections and (half of the cases) udp users keep sending: removed visitors' ports are free within 3 s, the connection a user opened through an unchanged visitor before the reload still echoes afterwards, every configured visitor is bound within 13 s and carries an echo to the owner's backend, and frpc survives. reload_at_login: deterministic probe - a configuration is loaded while a login is between copying the configuration and publishing its control (gate); the server must end with the loaded set. health_gating: a third of the http checks have timeout 3 s > interval 1 s and scripts with 'slow' probes (200 after 1.6 s: later than the interval, within the timeout - a success). reload_convergence variants include a change the server never sees (only the local port differs): the entry changed all the same and must be closed and registered again. local_start_failure: deterministic probe - the server accepts a proxy that cannot be started at the client (https2http plugin with nonexistent certificate files); it must be withdrawn at the server.",
